@@ -193,7 +193,7 @@ ALL = {
     'C17': dict(
         technique='solver-based: CrossHair/z3 exhaustion of symbolic process defaults (version x level x delimiter set) against a '
                   'corpus of calls with explicit arguments',
-        text='Bounded model checking: 12 default versions x 2 levels x 3 delimiter sets x 29 corpus calls give the same observable '
+        text='Bounded model checking: 12 default versions x 2 levels x 5 delimiter sets x 30 corpus calls give the same observable '
              'signature as under pristine defaults; changing the defaults does not alter 5 kinds of existing elements.',
         note='Corpus in harness/corpus.py; calls outside it are outside the claim.',
         ref='DESIGN.md §3 C17'),
@@ -212,7 +212,7 @@ ALL = {
         category='exploration',
         technique='solver-based: CrossHair/z3 exhaustion of SERIAL schedules (ordered pairs / triples of corpus calls) - a necessary '
                   'condition of the property; pre-emptive interleavings are outside the technique',
-        text='Only the call-boundary part of the schedule space: for every ordered pair and triple of 29 corpus calls of '
+        text='Only the call-boundary part of the schedule space: for every ordered pair and triple of 30 corpus calls of '
              'mixed versions and levels, each schedule in a fresh forked process, the last call returns what it returns when run alone. This detects shared-state '
              'poisoning of the kind fixed in 1.3.5 (#95); it says nothing about context switches inside a call.',
         note='CrossHair has no thread model: interleavings inside a call cannot be encoded. Stated as exploration-level for that reason.',
